@@ -19,8 +19,8 @@
 EXTENDS Naturals, Integers, Sequences, FiniteSets, TLC, Json, IOUtils
 
 Traces == JsonDeserialize(IOEnv.TRACE_FILE)
-VARIABLES tid, l, st, fut, cst, pend, open, crashed, fwd, awc, rep, due, owe, bad
-vars == <<tid, l, st, fut, cst, pend, open, crashed, fwd, awc, rep, due, owe, bad>>
+VARIABLES tid, l, st, fut, cst, pend, open, crashed, fwd, awc, rep, due, owe, cseen, late, bad
+vars == <<tid, l, st, fut, cst, pend, open, crashed, fwd, awc, rep, due, owe, cseen, late, bad>>
 \* st[k]   task status: "none" | "submitted" | "started" | "ended" | "raised"
 \* fut[f]  [owner, kids, consumed, cancelled, seen]
 \* cst[c]  compilation: [s |-> "absent"|"running"|"cancelled", delivered |-> BOOLEAN, failed |-> BOOLEAN]
@@ -33,6 +33,8 @@ vars == <<tid, l, st, fut, cst, pend, open, crashed, fwd, awc, rep, due, owe, ba
 \*         ancestor was cancelled work, its compilation was not cancelled and its client was connected: the runtime owes that
 \*         client the error
 \* owe[c]  the due errors of client c that were raised before c last saw the system settle: they are all in c's connection now
+\* cseen   set of <<worker, task>>: that worker has received the CANCEL message for that task
+\* late[k] task k was handed to its worker (Forward) AFTER that worker had received the CANCEL of k or of an ancestor of k
 
 T == Traces[tid]
 E == T.ev[l]
@@ -55,6 +57,8 @@ Init == /\ tid \in 1..Len(Traces) /\ l = 1 /\ bad = "none"
         /\ rep = [k \in 1..Traces[tid].nt |-> FALSE]
         /\ due = [k \in 1..Traces[tid].nt |-> FALSE]
         /\ owe = [c \in 1..Traces[tid].ncl |-> {}]
+        /\ cseen = {}
+        /\ late = [k \in 1..Traces[tid].nt |-> FALSE]
 
 RECURSIVE Anc(_)
 Anc(k) == IF k = 0 THEN {} ELSE {k} \cup Anc(T.parent[k])
@@ -74,7 +78,12 @@ FailedComp(c) == RaisedIn(c) # {}
 TaskVerdict ==
   CASE E.e = "TaskStart" ->
          IF st[E.t] = "none" THEN "start-of-unsubmitted-task"
-         ELSE IF st[E.t] # "submitted" THEN "task-body-ran-twice" ELSE "ok"
+         ELSE IF st[E.t] # "submitted" THEN "task-body-ran-twice"
+         \* C12, "descendant tasks stop being started".  Cancel is asynchronous, so a descendant may still start for a while - but
+         \* not on a worker that had ALREADY RECEIVED the CANCEL when the task was handed to it: messages to a worker are handled
+         \* one after the other, so that worker knew of the cancellation before it ever saw the task.
+         ELSE IF late[E.t] /\ ~crashed THEN "cancelled-task-started-after-its-worker-saw-the-cancel"
+         ELSE "ok"
     [] E.e = "Submit" -> IF st[E.t] # "started" THEN "submit-from-inactive-task" ELSE "ok"
     [] E.e \in {"TaskEnd", "TaskRaise"} -> IF st[E.t] # "started" THEN "end-without-start" ELSE "ok"
     [] E.e = "AwaitCall" -> IF fut[E.f].owner # E.t THEN "await-foreign-future" ELSE "ok"
@@ -101,6 +110,7 @@ TaskVerdict ==
          IF st[E.t] = "none" THEN "forward-of-unsubmitted-task"
          ELSE IF fwd[E.t] # {} THEN "task-forwarded-twice" ELSE "ok"
     [] E.e = "Report" -> "ok"     \* a worker told its boss that task E.t is finished (bookkeeping ground truth for the idle snapshot)
+    [] E.e = "CancelSeen" -> "ok" \* worker E.w received the CANCEL message for task E.t
 
 \* a client reply.  E.kind: "ok" (submit / cancel / close acknowledged) | "status" (E.s = RUNNING/DONE/UNKNOWN)
 \* | "result" (E.v = value) | "error" (E.cause: "task" with E.boom = ids whose message is carried, "await-cancelled",
@@ -227,7 +237,7 @@ SoftVerdicts ==
              ELSE IF E.srv[3] # 0 THEN {"idle-belief-at-quiescence:task-count:explained"} ELSE {})
 
 Verdict ==
-  CASE E.e \in {"TaskStart", "Submit", "TaskEnd", "TaskRaise", "AwaitCall", "AwaitReturn", "NextReturn", "Cancel", "Forward", "Report"} -> TaskVerdict
+  CASE E.e \in {"TaskStart", "Submit", "TaskEnd", "TaskRaise", "AwaitCall", "AwaitReturn", "NextReturn", "Cancel", "Forward", "Report", "CancelSeen"} -> TaskVerdict
     [] E.e \in {"ClientCall", "ClientReturn", "Probe"} -> ClientVerdict
     [] E.e = "BossState" -> BossVerdict
     [] E.e \in {"Crash", "NodeExit", "Settle"} -> "ok"      \* (NodeExit: a runtime process ended; judged against Shutdown.tla, not here)
@@ -252,6 +262,8 @@ Apply ==
   /\ awc' = IF E.e = "AwaitCall" /\ fut[E.f].cancelled THEN [awc EXCEPT ![T.tcomp[E.t]] = TRUE] ELSE awc
   /\ fwd' = IF E.e = "Forward" THEN [fwd EXCEPT ![E.t] = @ \cup {E.w}] ELSE fwd
   /\ rep' = IF E.e = "Report" /\ E.t \in Tasks THEN [rep EXCEPT ![E.t] = TRUE] ELSE rep
+  /\ cseen' = IF E.e = "CancelSeen" /\ E.t \in Tasks THEN cseen \cup {<<E.w, E.t>>} ELSE cseen
+  /\ late' = IF E.e = "Forward" /\ (\E a \in Anc(E.t) : <<E.w, a>> \in cseen) THEN [late EXCEPT ![E.t] = TRUE] ELSE late
   /\ due' = IF E.e = "TaskRaise" /\ ~crashed /\ ~CancelledTask(E.t) /\ open[T.cowner[T.tcomp[E.t]]]
             THEN [due EXCEPT ![E.t] = TRUE] ELSE due
   /\ owe' = CASE E.e = "Settle" -> [owe EXCEPT ![E.c] = {k \in Tasks : due[k] /\ T.cowner[T.tcomp[k]] = E.c}]
@@ -282,7 +294,7 @@ Step ==
   /\ \A s \in SoftVerdicts : PrintT(<<"VERDICT", tid, l, s>>)
   /\ LET v == Verdict IN
      IF v = "ok" THEN Apply /\ l' = l + 1 /\ bad' = bad
-     ELSE /\ bad' = v /\ PrintT(<<"VERDICT", tid, l, v>>) /\ UNCHANGED <<l, st, fut, cst, pend, open, crashed, fwd, awc, rep, due, owe>>
+     ELSE /\ bad' = v /\ PrintT(<<"VERDICT", tid, l, v>>) /\ UNCHANGED <<l, st, fut, cst, pend, open, crashed, fwd, awc, rep, due, owe, cseen, late>>
   /\ tid' = tid
 Spec == Init /\ [][Step]_vars
 =============================================================================
